@@ -160,8 +160,11 @@ def mutate(fs, rng, nops, hostile=0.15, ops=None, disks=None, maxblocks=5):
                 if any(x[0] == "hardlink" and x[1] == s2 for x in fs.entries[d].values()):
                     continue
                 e2 = fs.entries[d][s2]
-                if e2[0] == "file" and e[0] == "file" and len(e2[1]) == len(e[1]) and e2[2] == e[2] and e2[1] != e[1]:
-                    continue  # other bytes under an unchanged name, size and time-stamp: invisible by design, never generated
+                if e2[0] == "file" and e[0] == "file" and len(e2[1]) == len(e[1]) and e2[2] == e[2]:
+                    # other bytes under an unchanged name, size and time-stamp: invisible by design, never generated; the same
+                    # bytes (two copies exchanging their inodes): no change at all for the user, although a scanner that
+                    # trusts inodes reports two moves - not generated either
+                    continue
                 tmp = fs.path(d, b".swap_tmp_verif")
                 os.rename(fs.path(d, sub), tmp)
                 os.rename(fs.path(d, s2), fs.path(d, sub))
